@@ -158,9 +158,112 @@ func C09(ctx *Ctx) {
 	R.Count("walkers", nW)
 	R.Floor("walkers", 2)
 	checkVersion(ctx, hn, hs, leaves, titleOff)
+	checkHeaderWalkerCalls(ctx, hn)
 	checkROMHeader(ctx, total, titleOff)
 }
 
+// checkHeaderWalkerCalls: (*Header).ReadHeader parses into the receiver itself, and (*Header).WriteHeader serialises
+// the receiver's own field values (the receiver, or an unmodified copy of it) and leaves the header as it was.
+func checkHeaderWalkerCalls(ctx *Ctx, hn *types.Named) {
+	R := ctx.R
+	isWalker := func(f *ssa.Function, api string) bool { return reachesAPI(f, api, map[*ssa.Function]bool{}) }
+	for _, c := range []struct{ method, api string }{{"ReadHeader", "encoding/binary.Read"}, {"WriteHeader", "encoding/binary.Write"}} {
+		fn := ctx.Prog.Method("", "Header", c.method)
+		if fn == nil {
+			R.Fail("walkers", "Header."+c.method, "", "(*Header)."+c.method+" not found")
+			continue
+		}
+		pos := ctx.Prog.Pos(fn.Pos())
+		ip := absint.New()
+		h := &absint.Ptr{Nil: absint.TriF, Obj: ip.SymObj("h", hn), T: hn}
+		st := &absint.State{Heap: absint.NewHeap(nil)}
+		before := absint.ValKey(ip.Load(st, h, hn))
+		var msgs []string
+		nCalls := 0
+		ip.Hooks.OverrideCall = func(ip *absint.Interp, cur *absint.State, f *ssa.Function, a []absint.Val) (absint.Val, bool) {
+			if !isWalker(f, c.api) {
+				return nil, false
+			}
+			nCalls++
+			var tgt *absint.Ptr
+			for _, v := range a {
+				if ifc, ok := v.(*absint.Iface); ok {
+					v = ifc.V
+				}
+				if p, ok := v.(*absint.Ptr); ok && p.Obj != nil && types.Identical(p.Obj.T, hn) {
+					tgt = p
+				}
+			}
+			switch {
+			case tgt == nil:
+				msgs = append(msgs, f.Name()+" is not given a pointer to a Header")
+			case c.method == "ReadHeader" && (tgt.Obj != h.Obj || len(tgt.Path) != 0):
+				msgs = append(msgs, f.Name()+" parses into "+absint.ValKey(tgt)+", not into the receiver")
+			case c.method == "WriteHeader":
+				if got := absint.ValKey(ip.Load(cur, tgt, hn)); got != before {
+					msgs = append(msgs, f.Name()+" serialises a header whose fields differ from the receiver's: "+diffKeys(before, got))
+				}
+			}
+			return &absint.Top{Key: "walker-error", T: f.Signature.Results().At(0).Type()}, true
+		}
+		res, out := ip.Call(fn, []absint.Val{h, &absint.Top{Key: "stream"}}, nil, st)
+		switch {
+		case out == nil || len(ip.Imprec) > 0:
+			R.Fail("walkers", "Header."+c.method, pos, fmt.Sprintf("not interpretable: %v", ip.Imprec))
+			continue
+		case nCalls == 0:
+			msgs = append(msgs, "no walker is called")
+		}
+		if c.method == "WriteHeader" {
+			if after := absint.ValKey(ip.Load(out, h, hn)); after != before {
+				msgs = append(msgs, "the header is modified by serialising it: "+diffKeys(before, after))
+			}
+			if t, ok := res.(*absint.Top); ok && t.Key == "nil" {
+				msgs = append(msgs, "the walker's error is dropped: the result is always nil")
+			}
+		}
+		if len(msgs) > 0 {
+			R.Fail("walkers", "Header."+c.method, pos, strings.Join(msgs, "; "))
+		} else {
+			R.Pass("walkers", "Header."+c.method, pos, map[string]string{"ReadHeader": "parses into the receiver", "WriteHeader": "serialises the receiver's own field values and leaves it unchanged"}[c.method])
+		}
+	}
+}
+
+// diffKeys points at the first place two value keys differ.
+func diffKeys(a, b string) string {
+	i := 0
+	for i < len(a) && i < len(b) && a[i] == b[i] {
+		i++
+	}
+	lo := i - 40
+	if lo < 0 {
+		lo = 0
+	}
+	cut := func(s string) string {
+		hi := i + 60
+		if hi > len(s) {
+			hi = len(s)
+		}
+		return s[lo:hi]
+	}
+	return "…" + cut(a) + "… vs …" + cut(b) + "…"
+}
+
+// isLittleEndian: the value is the standard library's binary.LittleEndian converted to the ByteOrder interface.
+func isLittleEndian(v ssa.Value) bool {
+	if mi, ok := v.(*ssa.MakeInterface); ok {
+		if u, ok := mi.X.(*ssa.UnOp); ok && u.Op == token.MUL {
+			if g, ok := u.X.(*ssa.Global); ok && g.String() == "encoding/binary.LittleEndian" {
+				return true
+			}
+		}
+	}
+	return false
+}
+
+// checkWalker: fn contains the binary.Read / binary.Write calls. Either fn holds the field loop itself, or fn is a
+// closure handed to a function that holds the loop and calls it once per field with the field's address.
 func checkWalker(ctx *Ctx, fn *ssa.Function, calls []*ssa.Call, apiName string) {
 	R := ctx.R
 	key := fn.Name()
@@ -171,6 +274,93 @@ func checkWalker(ctx *Ctx, fn *ssa.Function, calls []*ssa.Call, apiName string) 
 		return
 	}
 	call := calls[0]
+	args := call.Call.Args
+	if len(args) != 3 {
+		fail("unexpected binary call shape")
+		return
+	}
+	if !isLittleEndian(args[1]) {
+		fail("the byte order argument is not encoding/binary.LittleEndian")
+		return
+	}
+	if fn.Parent() == nil || len(loopsOf(fn)) > 0 {
+		checkWalkerLoop(ctx, key, pos, fn, call, args[2], apiName)
+		return
+	}
+	// closure form: the data argument is the closure's own parameter ...
+	pi := -1
+	for i, p := range fn.Params {
+		if args[2] == ssa.Value(p) {
+			pi = i
+		}
+	}
+	if pi < 0 {
+		fail("the closure does not hand its own parameter to " + apiName)
+		return
+	}
+	// ... the closure is made once, in its parent, and passed to a function that calls it per field
+	var site *ssa.Call
+	argIdx := -1
+	nUses := 0
+	for _, b := range fn.Parent().Blocks {
+		for _, in := range b.Instrs {
+			mc, ok := in.(*ssa.MakeClosure)
+			if !ok || mc.Fn != ssa.Value(fn) {
+				continue
+			}
+			for _, u := range *mc.Referrers() {
+				if _, isDbg := u.(*ssa.DebugRef); isDbg {
+					continue
+				}
+				nUses++
+				if c, ok := u.(*ssa.Call); ok && c.Call.StaticCallee() != nil {
+					for i, a := range c.Call.Args {
+						if a == ssa.Value(mc) {
+							site, argIdx = c, i
+						}
+					}
+				}
+			}
+		}
+	}
+	if site == nil || nUses != 1 {
+		fail("the closure around the binary call is not passed to exactly one statically known function")
+		return
+	}
+	loopFn := site.Call.StaticCallee()
+	if loopFn.Blocks == nil || argIdx >= len(loopFn.Params) {
+		fail("the function receiving the closure has no body")
+		return
+	}
+	var visits []*ssa.Call
+	for _, b := range loopFn.Blocks {
+		for _, in := range b.Instrs {
+			if c, ok := in.(*ssa.Call); ok && c.Call.Value == ssa.Value(loopFn.Params[argIdx]) {
+				visits = append(visits, c)
+			}
+		}
+	}
+	for _, u := range *loopFn.Params[argIdx].Referrers() {
+		if _, isDbg := u.(*ssa.DebugRef); isDbg {
+			continue
+		}
+		if c, ok := u.(*ssa.Call); !ok || c.Call.Value != ssa.Value(loopFn.Params[argIdx]) {
+			fail("the visiting function is used otherwise than by calling it: " + u.String())
+			return
+		}
+	}
+	if len(visits) != 1 || pi >= len(visits[0].Call.Args) {
+		fail(fmt.Sprintf("%s calls the closure %d times, want once per field", loopFn.Name(), len(visits)))
+		return
+	}
+	checkWalkerLoop(ctx, key, pos, loopFn, visits[0], visits[0].Call.Args[pi], apiName+" via "+loopFn.Name())
+}
+
+// checkWalkerLoop: in fn, `call` is made once per field i = 0..NumField()-1 (skipping exactly the fields failing
+// CanInterface) and dataArg is Field(i).Addr().Interface().
+func checkWalkerLoop(ctx *Ctx, key, pos string, fn *ssa.Function, call *ssa.Call, dataArg ssa.Value, apiName string) {
+	R := ctx.R
+	fail := func(msg string) { R.Fail("walkers", key, pos, msg) }
 	loops := loopsOf(fn)
 	if len(loops) != 1 || !loops[0].Body[call.Block()] {
 		fail("expected exactly one loop containing the binary call")
@@ -233,12 +423,7 @@ func checkWalker(ctx *Ctx, fn *ssa.Function, calls []*ssa.Call, apiName string) 
 		structVal = nf.Call.Args[0]
 	}
 	// the pointer argument: Field(i).Addr().Interface()
-	args := call.Call.Args
-	if len(args) != 3 {
-		fail("unexpected binary call shape")
-		return
-	}
-	ifaceCall, ok1 := isMethod(args[2], "(reflect.Value).Interface")
+	ifaceCall, ok1 := isMethod(dataArg, "(reflect.Value).Interface")
 	var addrCall, fieldCall *ssa.Call
 	ok2, ok3 := false, false
 	if ok1 {
@@ -249,19 +434,6 @@ func checkWalker(ctx *Ctx, fn *ssa.Function, calls []*ssa.Call, apiName string) 
 	}
 	if !ok1 || !ok2 || !ok3 || fieldCall.Call.Args[0] != structVal || fieldCall.Call.Args[1] != iv {
 		fail("the data argument is not hv.Field(i).Addr().Interface() for the loop's own i")
-		return
-	}
-	// byte order: the stdlib's LittleEndian
-	okOrder := false
-	if mi, ok := args[1].(*ssa.MakeInterface); ok {
-		if u, ok := mi.X.(*ssa.UnOp); ok && u.Op == token.MUL {
-			if g, ok := u.X.(*ssa.Global); ok && g.String() == "encoding/binary.LittleEndian" {
-				okOrder = true
-			}
-		}
-	}
-	if !okOrder {
-		fail("the byte order argument is not encoding/binary.LittleEndian")
 		return
 	}
 	// skip predicate: the only guard between the loop body entry and the call besides CanAddr (whose failing edge panics) is CanInterface on the same field
@@ -323,7 +495,7 @@ func checkVersion(ctx *Ctx, hn *types.Named, hs *types.Struct, leaves []leafFiel
 	ip := absint.New()
 	h := &absint.Ptr{Nil: absint.TriF, Obj: ip.SymObj("h", hn), T: hn}
 	ip.Hooks.OverrideCall = func(ip *absint.Interp, st *absint.State, f *ssa.Function, a []absint.Val) (absint.Val, bool) {
-		if len(callsIn(f, func(g *ssa.Function) bool { return g.String() == "encoding/binary.Read" })) > 0 {
+		if reachesAPI(f, "encoding/binary.Read", map[*ssa.Function]bool{}) {
 			// the parser fills the exported fields with arbitrary bytes: they are symbolic already
 			return &absint.Top{Key: "nil"}, true
 		}
@@ -707,4 +879,53 @@ func newROMHeaderOffset(ctx *Ctx, rs *types.Struct) (uint64, bool) {
 	contents := ip.Load(&absint.State{Heap: absint.NewHeap(nil)}, &absint.Ptr{Obj: ip.SymObj("contents", types.NewPointer(types.NewSlice(types.Typ[types.Byte])))}, types.NewSlice(types.Typ[types.Byte]))
 	ip.Call(fn, []absint.Val{&absint.Str{Key: "name"}, contents}, nil, &absint.State{Heap: absint.NewHeap(nil)})
 	return val, found
+}
+
+// reachesAPI: f calls the named API itself, or through module functions it calls or closures it makes or passes on.
+func reachesAPI(f *ssa.Function, api string, seen map[*ssa.Function]bool) bool {
+	if _, dup := seen[f]; f == nil || dup || len(seen) > 400 {
+		return false
+	}
+	seen[f] = len(seen) > 0 // the starting function is marked false
+	if f.String() == api {
+		return true
+	}
+	if root := seenRoot(seen); root != nil && f.Pkg != root.Pkg && (f.Parent() == nil || f.Parent().Pkg != root.Pkg) {
+		return false // another package: not followed
+	}
+	for _, b := range f.Blocks {
+		for _, in := range b.Instrs {
+			for _, op := range in.Operands(nil) {
+				if op == nil || *op == nil {
+					continue
+				}
+				switch v := (*op).(type) {
+				case *ssa.Function:
+					if reachesAPI(v, api, seen) {
+						return true
+					}
+				case *ssa.MakeClosure:
+					if fn, ok := v.Fn.(*ssa.Function); ok && reachesAPI(fn, api, seen) {
+						return true
+					}
+				}
+			}
+		}
+	}
+	for _, an := range f.AnonFuncs {
+		if reachesAPI(an, api, seen) {
+			return true
+		}
+	}
+	return false
+}
+
+// seenRoot returns the function the traversal started from (the only one with a nil marker).
+func seenRoot(seen map[*ssa.Function]bool) *ssa.Function {
+	for f, first := range seen {
+		if !first {
+			return f
+		}
+	}
+	return nil
 }
